@@ -162,10 +162,19 @@ class _RefMissing(Exception):
     pass
 
 
+class _Stop(object):
+    pass
+
+
+STOP = _Stop()
+
+
 def canon(v, depth=0):
     """Canonical JSON-able form of a value: no addresses, no hash order."""
     if v is None or isinstance(v, (bool, int, str)):
         return v
+    if v is STOP:
+        return {"stop": 1}
     if isinstance(v, float):
         return {"f": repr(v)}
     if isinstance(v, (bytes, bytearray)):
@@ -381,9 +390,9 @@ def _do(step, W):
         out = []
         for _ in range(step.get("n", 1)):
             try:
-                out.append(canon(next(g)))
+                out.append(next(g))
             except StopIteration:
-                out.append({"stop": 1})
+                out.append(STOP)
                 break
         return out
     if k == "drain":
@@ -391,9 +400,9 @@ def _do(step, W):
         out = []
         for _ in range(step.get("max", 64)):
             try:
-                out.append(canon(next(g)))
+                out.append(next(g))
             except StopIteration:
-                out.append({"stop": 1})
+                out.append(STOP)
                 break
         return out
     if k == "close":
